@@ -27,6 +27,9 @@ mod operation;
 mod statement;
 mod ty;
 
+#[cfg(feature = "verif_hooks")]
+pub mod verif_hooks;
+
 impl FromStr for AST {
     type Err = Box<ParseErr>;
 
